@@ -107,6 +107,20 @@ def ensemble_config(tfl, nf, nl, rank, seed, lattices):
                                                      lattice_rank=rank, random_seed=seed, output_initialization=[0.0, 1.0])
 
 
+def other_interpreter(jobs, hashseed):
+  """The same jobs in a fresh interpreter with another string-hash seed (harness/c17_child.py)."""
+  import os
+  import subprocess
+  import sys
+  env = dict(os.environ, PYTHONHASHSEED=str(hashseed))
+  p = subprocess.run([sys.executable, os.path.join(os.path.dirname(os.path.abspath(__file__)), "c17_child.py")],
+                     input=json.dumps(jobs), stdout=subprocess.PIPE, stderr=subprocess.DEVNULL, text=True, env=env, timeout=900)
+  for line in p.stdout.splitlines():
+    if line.startswith("C17CHILD "):
+      return json.loads(line[len("C17CHILD "):])
+  raise common.MachineryError("C17 child interpreter produced no result (rc=%s)" % p.returncode)
+
+
 def random_events(tfl, ctx, n_seeds):
   from tensorflow_lattice.python import premade_lib
   evs = []
@@ -223,6 +237,19 @@ def run(ctx):
   n = 12 if ctx.quick else 150
   events = rtl_events(tf, tfl, ctx, n) + random_events(tfl, ctx, n) + cover_events(tfl, ctx, n)
   events += crystals_events(tfl, ctx, score_tables(ctx, rng))
+  # "a deterministic function of the seed": the same jobs in two fresh interpreters with other string-hash seeds
+  jobs, targets = [], []
+  for e in events:
+    if e["ev"] in ("Random", "Cover"):
+      c = e["call"]
+      jobs.append({"kind": "random" if e["ev"] == "Random" else "cover", "nf": c["nf"], "nl": c.get("nl", 2), "rank": c["rank"],
+                   "seed": c["seed"] + 1000 * ctx.seed})
+      targets.append(e)
+  for hs in (1, 2):
+    res = other_interpreter(jobs, hs)
+    for e, r in zip(targets, res):
+      e.setdefault("others", []).append(r if isinstance(r, list) else [])
+  ctx.extra["interpreters_compared"] = 3
   log("  %d events" % len(events))
   ctx.sample({k: events[0].get(k) for k in ("ev", "nl", "rank", "inputs", "shuffle1", "shuffle2", "swapped", "structure")})
   ctx.validate("TraceEnsembles", events)
